@@ -26,7 +26,7 @@ using namespace verif;
 namespace {
 enum { CFG, SINK, MODLVL, LOG, YIELD, SPLIT, NOPS };
 const int kMaxThreads = 6, kMaxSinks = 3;
-const int64_t kMaxLens[] = {0, 1, 10, 2047, 2048, 2049, 5000, 100 << 10};
+const int64_t kMaxLens[] = {0, 1, 10, 2047, 2048, 2049, 5000, 100 << 10, 300 << 10};   // the last one is above the default maximum (100 KiB)
 const int64_t kFileMax[] = {1, 50, 300, 4096, 1 << 20};
 const int64_t kPipeBuf[] = {1, 7, 64, 1024, 10240};
 const int64_t kPipeIntv[] = {1, 5, 100};
@@ -135,7 +135,7 @@ std::string run(const Scenario &s, CaseInfo &info) {
                                                                                             // those also in reen_mask are enabled again (second life of the same sink object) before round 1
   for (auto &op : s.ops) {
     switch (op.code) {
-      case CFG: maxlen = (size_t)kMaxLens[op.in(0, 0, 7)]; nthreads = (int)op.in(1, 1, kMaxThreads); break;
+      case CFG: maxlen = (size_t)kMaxLens[op.in(0, 0, 8)]; nthreads = (int)op.in(1, 1, kMaxThreads); break;
       case SINK: if ((int)specs.size() < kMaxSinks) { SinkSpec sp; sp.kind = (int)op.in(0, 0, 4); sp.deflevel = (int)op.in(1, -1, 8);
           sp.buf = (int)op.in(2, 0, 4); sp.mn = (int)op.in(3, 1, 3); sp.mx = sp.mn + (int)op.in(4, 0, 3); sp.intv = (int)op.in(5, 0, 2); sp.fmax = (int)op.in(6, 0, 4); sp.endmode = (int)op.in(7, 0, 3);
           bool has_stdout = false; for (auto &x : specs) if (x.kind >= 3) has_stdout = true;
@@ -204,7 +204,7 @@ std::string run(const Scenario &s, CaseInfo &info) {
 
   // ---- what a sink has got so far (no waiting)
   std::string err;
-  bool any_trunc = false, any_roll = false, cross_boundary = false, any_multiline = false, ended_without_disable = false;
+  bool any_big = false, any_trunc = false, any_roll = false, cross_boundary = false, any_multiline = false, ended_without_disable = false;
   char buf[400];
   auto collect = [&](size_t i, std::vector<Rec> &got) {
     SinkSpec &sp = specs[i];
@@ -309,6 +309,7 @@ std::string run(const Scenario &s, CaseInfo &info) {
       std::string full = text_of(c.t, c.seq, c.len, c.multiline); if (c.multiline && full.find('\n') != std::string::npos) any_multiline = true;
       bool want_trunc = c.len > maxlen; std::string want = want_trunc ? full.substr(0, maxlen) : full;
       if (want_trunc) any_trunc = true;
+      if (want.size() > (100u << 10)) any_big = true;
       if (r.text != want) { snprintf(buf, sizeof buf, "sink %zu (kind %d): text of thread %d seq %ld is damaged: got %zu bytes, expected %zu (original %zu, max %zu)", i, sp.kind, r.t, r.seq, r.text.size(), want.size(), c.len, maxlen); err = buf; break; }
       if (r.trunc != want_trunc) { snprintf(buf, sizeof buf, "sink %zu (kind %d): thread %d seq %ld (len %zu, max %zu): truncation mark %s", i, sp.kind, r.t, r.seq, c.len, maxlen, want_trunc ? "missing" : "present on an uncut text"); err = buf; break; }
       if (r.when != when_of(c.stamp_sec, c.stamp_usec)) { snprintf(buf, sizeof buf, "sink %zu (kind %d): time field of thread %d seq %ld is '%s', but the record was stamped %s", i, sp.kind, r.t, r.seq, r.when.c_str(), when_of(c.stamp_sec, c.stamp_usec).c_str()); err = buf; break; }
@@ -332,6 +333,7 @@ std::string run(const Scenario &s, CaseInfo &info) {
   info.cls_if(has_async, "async_sink");
   info.cls_if(cross_boundary, "record_crosses_pipe_buffer");
   info.cls_if(any_trunc, "truncated_record");
+  info.cls_if(any_big, "record_text_longer_than_100KiB_delivered");
   info.cls_if(any_roll, "file_rollover");
   info.cls_if(ended_without_disable, "enabled_file_sink_cleaned_up_or_destroyed_without_disable");
   info.cls_if(stamp_back, "record_stamped_in_an_earlier_second_than_its_predecessor");
@@ -354,7 +356,7 @@ SubDef def = [] {
 #ifndef VERIF_ENGINE_FUZZ
   d.gen = [] {
     auto th = range(0, kMaxThreads - 1);
-    auto cfg = mkop(CFG, {range(0, 7), range(1, kMaxThreads)});
+    auto cfg = mkop(CFG, {range(0, 8), range(1, kMaxThreads)});
     auto sink = mkop(SINK, {range(0, 4), rc::gen::weightedOneOf<int64_t>({{3, rc::gen::just<int64_t>(8)}, {3, range(-1, 8)}}), range(0, 4), range(1, 3), range(0, 3), range(0, 2), range(0, 4), range(0, 3)});
     auto sinks = rc::gen::resize(3, rc::gen::container<std::vector<Op>>(sink));
     auto opg = rc::gen::weightedOneOf<Op>({
